@@ -89,6 +89,14 @@ structure ExcelFormer (R : Type) where
   channels : Nat
   numCols : Nat
 
+/-- `torch.cat(xs, dim=1)` in `StypeWiseFeatureEncoder.forward`: the per-stype encoder outputs
+    (each `[B, F_s, D]`) are concatenated along the column axis, in the order of `tf.stypes` -/
+def catCols {R : Type} (B : Nat) (xs : List (T3 R)) : T3 R :=
+  xs.foldl (fun acc x => List.zipWith (fun a b => a ++ b) acc x) (List.replicate B [])
+
+/-- `all_col_names` of `StypeWiseFeatureEncoder.forward` -/
+def allColNames (names : List (List String)) : List String := names.flatten
+
 namespace TOps
 variable {R : Type} (o : TOps R)
 
